@@ -15,9 +15,13 @@ RW = [
     dict(rule="R3", re=r"\bobj\.as_ref\(\)", to=r"&*obj", why="Rc::as_ref on an owned Rc -> deref"),
     dict(rule="R3", re=r"\bf\.as_ref\(\)", to=r"&**f", why="Rc::as_ref through a pattern-bound reference -> double deref"),
     dict(rule="R2", re=r"let mut writer = writer\.borrow_mut\(\);", to="", why="RefCell erased"),
+    dict(rule="R3", re=r"writer\s*\.borrow_mut\(\)\s*\.flush\(\)", to="os_flush_writer(writer)", why="RefCell erased; Write::flush on the file writer -> OS shim"),
     dict(rule="R3", re=r"writer\.flush\(\)", to="os_flush_writer(writer)", why="Write::flush on the file writer -> OS shim (Ok or Err, arbitrarily)"),
     dict(rule="R3", re=r"io::stdout\(\)\.flush\(\)", to="os_flush_stdout()", why="stdout flush -> OS shim"),
     dict(rule="R3", re=r"io::stderr\(\)\.flush\(\)", to="os_flush_stderr()", why="stderr flush -> OS shim"),
+    # std shapes that do not occur in the current code but are the obvious alternatives (see emitter unit)
+    dict(rule="R3", re=r"(os_flush_\w+\([^)]*\))\s*\.map_err\(\|(\w+)\| ((?:[^()]|\((?:[^()]|\([^()]*\))*\))*)\)\?;", to=r"if let Err(\2) = \1 { return Err(\3); }", why="Result::map_err(closure)? -> explicit early return (same meaning)"),
+    dict(rule="R3", re=r"(os_flush_\w+\([^)]*\))\s*\.(?:unwrap|expect)\((?:\"[^\"]*\")?\);", to=r"os_result_unwrap(\1);", why="unwrap/expect on an OS result -> shim whose precondition is that the result is Ok"),
     dict(rule="R3", re=r"Pcap::from_file\(f\.clone\(\)\)", to="pcap_from_file(f.clone())", why="Pcap::from_file (reads the global header) -> OS shim"),
     dict(rule="R3", re=r"Pcap::new\(f\.clone\(\)\)", to="pcap_new(f.clone())", why="Pcap::new (writes the global header) -> OS shim"),
 ]
